@@ -3,16 +3,15 @@
 // get_visible_fields_order, has_visible_field), ObjectLayer, ObjectField, ObjectFieldData,
 // Program::{extend_object, object_with_field_removed}, extend_object_clone_field / _layer.
 // Hand-written environment: Gc (Rc), interned strings (small ids, ordered by id), FHashMap bound
-// to BTreeMap (the extracted text uses only get / iter / collect / default on it).
+// to an association list (shim/vecmap.rs; the extracted text uses only get / iter / collect /
+// default on it).
 #![allow(dead_code, unused)]
 mod u {
 use std::cell::{Cell, OnceCell, RefCell};
 use std::collections::BTreeMap;
 use std::marker::PhantomData;
 use std::rc::Rc;
-// shim: real alias is HashMap<K, V, foldhash::fast::RandomState>; assumption: a finite map whose
-// iteration order is irrelevant to the results computed here
-pub type FHashMap<K, V> = BTreeMap<K, V>;
+//@include shim/vecmap.rs
 #[derive(Clone, Copy, PartialEq, Eq, PartialOrd, Ord, Debug)]
 pub struct InternedStr<'p>(pub u8, pub PhantomData<&'p ()>);
 // shim of interner::SortedInternedStr: orders by string value; here names are ids ordered by id
@@ -20,15 +19,16 @@ pub struct InternedStr<'p>(pub u8, pub PhantomData<&'p ()>);
 pub struct SortedInternedStr<'p>(pub InternedStr<'p>);
 pub mod ast { #[derive(Clone, Copy, PartialEq, Eq, Debug)] pub enum Visibility { Default, Hidden, ForceVisible } }
 pub mod ir { pub struct Expr<'p>(pub u8, pub std::marker::PhantomData<&'p ()>); pub struct Assert<'p>(pub u8, pub std::marker::PhantomData<&'p ()>); }
-pub struct Gc<T>(pub Rc<T>);
-impl<T> Clone for Gc<T> { fn clone(&self) -> Self { Gc(self.0.clone()) } }
-impl<T> Gc<T> { pub fn view(&self) -> GcView<T> { GcView(self.0.clone()) } }
-pub struct GcView<T>(pub Rc<T>);
-impl<T> std::ops::Deref for GcView<T> { type Target = T; fn deref(&self) -> &T { &self.0 } }
+// raw-pointer handles, nothing is ever freed (Rc's recursive drop glue is what CBMC chokes on)
+pub struct Gc<T>(pub *const T);
+impl<T> Clone for Gc<T> { fn clone(&self) -> Self { Gc(self.0) } }
+impl<T> Gc<T> { pub fn new(v: T) -> Self { Gc(Box::into_raw(Box::new(v))) } pub fn view(&self) -> GcView<T> { GcView(self.0) } }
+pub struct GcView<T>(pub *const T);
+impl<T> std::ops::Deref for GcView<T> { type Target = T; fn deref(&self) -> &T { unsafe { &*self.0 } } }
 pub struct ThunkEnv<'p>(pub PhantomData<&'p ()>);
 pub struct ThunkData<'p>(pub u8, pub PhantomData<&'p ()>);
 pub struct Program<'p>(pub PhantomData<&'p ()>);
-impl<'p> Program<'p> { fn gc_alloc<T>(&mut self, v: T) -> Gc<T> { Gc(Rc::new(v)) } }
+impl<'p> Program<'p> { fn gc_alloc<T>(&mut self, v: T) -> Gc<T> { Gc::new(v) } }
 
 // ---- extracted, verbatim -------------------------------------------------------------------
 //@extract file=rsjsonnet-lang/src/program/data.rs item=struct:ObjectData
@@ -100,11 +100,12 @@ mod vharness {
         found
     }
 
-    fn any_object(maxn: usize, maxd: usize) -> (usize, [E; MAXL], [E; MAXL], ObjectData<'static>) {
+    fn any_object(maxn: usize, maxd: usize) -> (usize, [E; MAXL], [E; MAXL], &'static ObjectData<'static>) {
         let n: usize = kani::any(); kani::assume(n >= 1 && n <= maxn);
         let es = [any_entry(maxd), any_entry(maxd), any_entry(maxd), any_entry(maxd)];
         let os = [any_entry(maxd), any_entry(maxd), any_entry(maxd), any_entry(maxd)];
-        let o = object(n, &es, &os);
+        // leaked: nothing is dropped in a harness (drop glue of nested Vec/OnceCell is pure cost for CBMC)
+        let o: &'static ObjectData<'static> = Box::leak(Box::new(object(n, &es, &os)));
         (n, es, os, o)
     }
 
@@ -158,7 +159,7 @@ mod vharness {
         let (na, ea, oa, a) = any_object(2, 2);
         let (nb, eb, ob, b) = any_object(2, 2);
         let mut p = Program(PhantomData);
-        let r = p.extend_object(&a, &b);
+        let r = p.extend_object(a, b);
         let r = r.view();
         assert!(1 + r.super_layers.len() == na + nb, "C07:objlayers:extend-has-all-layers-of-both");
         let mut i = 0;
@@ -180,7 +181,7 @@ mod vharness {
         let before_other = o.find_field(0, OTHER).map(|(i, _)| i);
         let before_vis = o.has_visible_field(OTHER);
         let mut p = Program(PhantomData);
-        let r = p.object_with_field_removed(&o, NAME);
+        let r = p.object_with_field_removed(o, NAME);
         let r = r.view();
         assert!(r.find_field(0, NAME).is_none() && !r.has_visible_field(NAME), "C07:objlayers:removed-field-no-longer-exists");
         assert!(r.find_field(0, OTHER).map(|(i, _)| i) == before_other.map(|i| i + 1), "C07:objlayers:other-field-keeps-its-defining-layer");
@@ -190,6 +191,21 @@ mod vharness {
         while i < order.len() { assert!(order[i].0 != NAME, "C07:objlayers:removed-field-not-listed"); if order[i].0 == OTHER { other_listed = true; assert!((order[i].1 != V::Hidden) == before_vis, "C07:objlayers:other-field-listed-with-its-visibility"); } i += 1; }
         assert!(other_listed == before_other.is_some(), "C07:objlayers:other-field-still-listed");
     }
+
+    //@harness props=C07X strength=bounded clause="experiment"
+    #[kani::proof]
+    #[kani::unwind(7)]
+    fn exp_concrete_shape() {
+        let n = 3usize;
+        let d: usize = kani::any(); kani::assume(d <= 3);
+        let es = [E::N(any_vis()), E::R(d), E::N(any_vis()), E::Absent];
+        let os = [E::Absent, E::Absent, E::Absent, E::Absent];
+        let o: &'static ObjectData<'static> = Box::leak(Box::new(object(n, &es, &os)));
+        let got = o.find_field(0, NAME).map(|(i, _)| i);
+        assert!(got == spec_lookup(n, &es, 0), "C07X:objlayers:find-field-is-first-effective-definition");
+        assert!(o.has_visible_field(NAME) == spec_visible(n, &es), "C07X:objlayers:has-visible-field-follows-the-visibility-rules");
+    }
+    fn any_present(maxd: usize) -> E { let k: u8 = kani::any(); if k % 2 == 0 { E::N(any_vis()) } else { let d: usize = kani::any(); kani::assume(d <= maxd); E::R(d) } }
 
     //@harness props=C07 strength=bounded expect=fail clause="canary"
     #[kani::proof]
